@@ -43,6 +43,10 @@ class MemberSolver(Solver):
 
     def solve(self, assumptions=None):
         b = self.BEHAVIOUR
+        if b == "by-seed":
+            # one solver registered once, used several times with different options (the documented
+            # multi-seed portfolio): the behaviour is selected by the random_seed option
+            b = BEHAVIOURS[self.options.random_seed]
         if b == "raise":
             raise RuntimeError("member failed")
         if b == "unknown":
@@ -65,6 +69,7 @@ class MemberSolver(Solver):
             self.model = None
             return False
         self.model = models[0] if b == "first" else models[-1]
+        self._picked = b
         return True
 
     def get_model(self):
@@ -156,23 +161,34 @@ def expected(script, unsat):
     return e
 
 
+def member_names(env, behs, same_solver):
+    """registers the member solvers; returns the solvers_set argument of Portfolio"""
+    if same_solver:
+        env.factory._all_solvers["m"] = member_class("by-seed")
+        return [("m", {"random_seed": BEHAVIOURS.index(bh)}) for bh in behs]
+    names = []
+    for i, bh in enumerate(behs):
+        nm = "m%d" % i
+        env.factory._all_solvers[nm] = member_class(bh)
+        names.append(nm)
+    return names
+
+
 def run_config(args):
-    behs, script, eoe, unsat, bound, seed = args
+    behs, script, eoe, unsat, bound, seed = args[:6]
+    same_solver = len(args) > 6 and args[6]
     res = Result()
     env = Environment()
     push_env(env)
     try:
         sched.install()
-        names = []
-        for i, bh in enumerate(behs):
-            nm = "m%d" % i
-            env.factory._all_solvers[nm] = member_class(bh)
-            names.append(nm)
+        names = member_names(env, behs, same_solver)
         body = make_body(env, names, script, eoe, unsat)
         some_answer = any(bh in ANSWERING for bh in behs)
         some_error = any(bh in ("raise", "unknown") for bh in behs)
         want = expected(script, unsat)
-        cfg = {"members": list(behs), "script": script, "exit_on_exception": eoe, "unsat": unsat}
+        cfg = {"members": list(behs), "script": script, "exit_on_exception": eoe, "unsat": unsat,
+               "same_solver": bool(same_solver)}
         cls = ("all-fail" if not some_answer else "some-fail" if len(set(behs) - set(ANSWERING)) else "all-answer")
         outcomes = {}
         first_bad = {}
@@ -243,6 +259,10 @@ def configs(ctx):
                         if not q and two:
                             bound = 3 if script == "solve-twice" else 2
                         out.append((behs, script, eoe, unsat, bound, ctx.seed))
+    # the same solver used twice with different options (members share their solver name)
+    for behs in itertools.product(BEHAVIOURS, repeat=2):
+        for script in ("solve", "solve+model"):
+            out.append((behs, script, False, False, None, ctx.seed, True))
     if q:
         # three members under a preemption bound of 2, the most race-prone script
         for behs in itertools.product(("first", "last", "raise", "exit"), repeat=3):
@@ -287,10 +307,7 @@ def replay(rec):
     push_env(env)
     try:
         sched.install()
-        names = []
-        for i, bh in enumerate(cfg["members"]):
-            env.factory._all_solvers["m%d" % i] = member_class(bh)
-            names.append("m%d" % i)
+        names = member_names(env, cfg["members"], cfg.get("same_solver"))
         body = make_body(env, names, cfg["script"], cfg["exit_on_exception"], cfg["unsat"])
         o1 = sched.run_once(body, case["choices"])
         o2 = sched.run_once(body, case["choices"])
